@@ -49,32 +49,125 @@ def run(tier, seed):
         lp = loops[0]
         hdr = fn.blocks[lp["header"]]
         phis = [i for i in hdr.insts if i.op == "phi"]
-        state = idx = None
+        # Every loop-carried value other than the state must be an affine function of the iteration number k: value(k) = init + step * k,
+        # with init a linear form over {buf, buf_len} taken at full width (a narrowing cast of buf_len is *not* linear: this is where a
+        # 16- or 32-bit counter for a size_t length is caught).  The rule then requires: the byte read in iteration k is buf[k], and the
+        # loop is left exactly when k == buf_len - whatever the spelling (index counting up, remaining count going down, pointer walk
+        # to an end pointer).
+        from ..lin import Lin
+        LEN_BITS = mod.int_bits(fn.params[2].ty) or 64
+        state = None
+        ivs = {}            # phi id -> (base or None, Lin init, step)
+        why_not = {}
+
+        def width_ok(ty):
+            return ty.endswith("*") or (mod.int_bits(ty) or 0) >= LEN_BITS
+
+        def ev(o, depth=0):
+            """operand -> (base, Lin over {len, k}) or None; base is 'buf' for pointers into the buffer, None for integers"""
+            if is_const(o):
+                return (None, Lin(const_val(o)))
+            if o == ("v", fn.params[1].id):
+                return ("buf", Lin(0))
+            if o == ("v", fn.params[2].id):
+                return (None, Lin(0, {"len": 1}))
+            d = fn.defn(o)
+            if d is None or d.is_param or depth > 16:
+                return None
+            if d.op == "phi" and d.id in ivs:
+                base, init, step = ivs[d.id]
+                return (base, init.add(Lin(0, {"k": step})))
+            if d.op == "bitcast":
+                return ev(d.ops[0], depth + 1)
+            if d.op in ("zext", "sext"):
+                return ev(d.ops[0], depth + 1)      # widening a value that is already exact (narrow counters never get this far)
+            if d.op == "trunc":
+                why_not[d.id] = "narrowing cast to %d bits at %s" % (mod.int_bits(d.ty) or 0, d.where())
+                return None
+            if d.op in ("add", "sub"):
+                x, y = ev(d.ops[0], depth + 1), ev(d.ops[1], depth + 1)
+                if x is None or y is None or (y[0] is not None and d.op == "add" and x[0] is not None):
+                    return None
+                if d.op == "sub" and x[0] == y[0]:
+                    return (None, x[1].add(y[1], -1))
+                if y[0] is not None:
+                    return None
+                return (x[0], x[1].add(y[1], 1 if d.op == "add" else -1))
+            if d.op == "getelementptr" and len(d.ops) == 2:
+                x, y = ev(d.ops[0], depth + 1), ev(d.ops[1], depth + 1)
+                if x is None or y is None or y[0] is not None or x[0] is None:
+                    return None
+                return (x[0], x[1].add(y[1]))
+            return None
         for p in phis:
-            ins = [(v, b) for v, b in p.incoming if b not in lp["body"]]
-            if len(ins) != 1:
-                continue
-            if is_const(ins[0][0]) and const_val(ins[0][0]) == 0 and all(M.match(("bin", "add", ("inst", p.id), 1), v, {}) is not None for v, b in p.incoming if b in lp["body"]):
-                idx = p
-            elif M.match(("load", ("param", 0)), ins[0][0], {}) is not None:
+            ins = [v for v, b in p.incoming if b not in lp["body"]]
+            backs = [v for v, b in p.incoming if b in lp["body"]]
+            if len(ins) == 1 and M.match(("load", ("param", 0)), ins[0], {}) is not None:
                 state = p
-        rep.check(rid3, idx is not None, "index runs 0, 1, 2, ...", where, None, function=fn.cname, obj="index")
-        rep.check(rid3, state is not None and len(phis) == 2, "the only loop-carried values are the index and the state loaded from *crc", where,
-                  "%d header phis" % len(phis), function=fn.cname, obj="state")
-        if idx is None or state is None:
+                continue
+            if len(ins) != 1 or not backs:
+                why_not[p.id] = "header phi %s has no single initial value" % (fn.var_name(p.id) or p.id)
+                continue
+            init = ev(ins[0])
+            step = None
+            for v in backs:
+                e = M.match(("bin", "add", ("inst", p.id), ("bind", "c", ("const",))), v, {})
+                st = const_val(e["c"]) if e is not None else None
+                if st is None:
+                    e = M.match(("bin", "sub", ("inst", p.id), ("bind", "c", ("const",))), v, {})
+                    st = -const_val(e["c"]) if e is not None else None
+                if st is None:
+                    e = M.match(("gep", ("inst", p.id), [("bind", "c", ("const",))]), v, {})
+                    st = const_val(e["c"]) if e is not None else None
+                if st is None or (step is not None and st != step):
+                    step = None
+                    break
+                step = st
+            if init is None or step is None:
+                why_not.setdefault(p.id, "loop-carried value %s is not init + step*k over {buf, buf_len} (%s)" % (
+                    fn.var_name(p.id) or p.id, "; ".join(sorted(set(why_not.values()))) or "non-constant step or non-linear initial value"))
+                continue
+            if not width_ok(p.ty):
+                why_not[p.id] = "loop counter %s is %d bits wide but buf_len has %d: for buf_len >= 2^%d it wraps before reaching the bound" % (
+                    fn.var_name(p.id) or p.id, mod.int_bits(p.ty) or 0, LEN_BITS, mod.int_bits(p.ty) or 0)
+                continue
+            ivs[p.id] = (init[0], init[1], step)
+        bad_phis = [p for p in phis if p is not state and p.id not in ivs]
+        rep.check(rid3, not bad_phis and bool(ivs), "every loop-carried value besides the state is init + step*k at the full width of buf_len", where,
+                  "; ".join(why_not.get(p.id, "?") for p in bad_phis) or None, function=fn.cname, obj="index")
+        rep.check(rid3, state is not None, "the state enters the loop as the value loaded from *crc", where, "%d header phis" % len(phis), function=fn.cname, obj="state")
+        if state is None or bad_phis or not ivs:
             return rep.finish(seed)
-        # exit: only when i >= buf_len
-        exits_ok = all(M.find_fact(("uge", ("inst", idx.id), ("param", 2)), F.edge_facts(b, s))[0] is not None for (b, s) in lp["exits"]) and len(lp["exits"]) == 1
-        rep.check(rid3, exits_ok, "the loop is left only when i >= buf_len", where, None, function=fn.cname, obj="exit")
+        # exit: the single exit edge is taken exactly when k == buf_len
+        def exit_is_k_eq_len(f):
+            x, y = ev(f[1]), ev(f[2])
+            if x is None or y is None or x[0] != y[0]:
+                return False
+            dlt = x[1].add(y[1], -1)                      # A - B as a form over {len, k}
+            kc, lc, c0 = dlt.t.get("k", 0), dlt.t.get("len", 0), dlt.c
+            if c0 != 0 or set(dlt.t) - {"k", "len"}:
+                return False
+            if f[0] == "eq":
+                return (kc, lc) in ((1, -1), (-1, 1))
+            if f[0] == "uge":                              # A >= B with A - B = k - len  (first true at k == len, steps of one)
+                return (kc, lc) == (1, -1)
+            if f[0] == "ule":                              # A <= B with A - B = len - k
+                return (kc, lc) == (-1, 1)
+            return False
+        exits_ok = len(lp["exits"]) == 1 and all(any(exit_is_k_eq_len(f) for f in F.edge_facts(b, s)) for (b, s) in lp["exits"])
+        rep.check(rid3, exits_ok, "the loop is left exactly when the iteration number reaches buf_len", where, None, function=fn.cname, obj="exit")
         # memory effects
         loads = [i for i in fn.insts() if i.op == "load"]
         stores = [i for i in fn.insts() if i.op == "store"]
         calls = [i for i in fn.insts() if i.op == "call" and not (i.callee or "").startswith("llvm.dbg")]
-        byte_loads = [l for l in loads if M.match(("load", ("gep", ("param", 1), [("inst", idx.id)])), ("v", l.id), {}) is not None and l.size == 1]
+        def is_buf_k(l):
+            r = ev(l.ops[0])
+            return l.size == 1 and r is not None and r[0] == "buf" and r[1].c == 0 and r[1].t == {"k": 1}
+        byte_loads = [l for l in loads if is_buf_k(l)]
         crc_loads = [l for l in loads if M.match(("load", ("param", 0)), ("v", l.id), {}) is not None]
         table_loads = [l for l in loads if root(fn, l.ops[0])[0] == "global"]
         other = [l for l in loads if l not in byte_loads and l not in crc_loads and l not in table_loads]
-        rep.check(rid3, len(byte_loads) >= 1 and all(l.block.id in lp["body"] for l in byte_loads), "data bytes are buf[i]", where, None, function=fn.cname, obj="bytes")
+        rep.check(rid3, len(byte_loads) >= 1 and all(l.block.id in lp["body"] for l in byte_loads), "the byte read in iteration k is buf[k]", where, None, function=fn.cname, obj="bytes")
         rep.check(rid3, not other and not calls, "no other memory is read and nothing is called", where, "%s" % [o.where() for o in other + calls], function=fn.cname, obj="reads")
         okst = len(stores) == 1 and M.match(("param", 0), stores[0].ops[1], {}) is not None and stores[0].block.id not in lp["body"]
         if okst:
